@@ -614,13 +614,13 @@ inductive Store where
   | mpq (n d : Int)
   deriving Repr, Inhabited
 
-/-- state of one `%` sequence (doprnt.c:208-225 initialisation) -/
+/-- state of one `%` sequence (doprnt.c:213-228 initialisation) -/
 structure PS where
   param : Params := {}
   type : Char := '\x00'
   inPrec : Bool := false     -- value == &param.prec
   seenPrec : Bool := false   -- seen_precision
-  inNum : Bool := false      -- inside the digit loop :604-612
+  inNum : Bool := false      -- inside the digit loop :598-610
   deriving Repr, Inhabited
 
 /-- state of `__gmp_doprnt`; `pending` is the text from `last_fmt` up to `fmt`, reversed -/
@@ -641,7 +641,7 @@ inductive Mode where
 def DS.emit (st : DS) (cs : List Call) : DS :=
   { st with calls := st.calls ++ cs, retval := st.retval + (callsBytes cs).length }
 
-/-- FLUSH() (doprnt.c:140-155): nothing if this_fmt == last_fmt, else the text before this `%` goes to
+/-- FLUSH() (doprnt.c:135-149): nothing if this_fmt == last_fmt, else the text before this `%` goes to
     funs->format with last_ap. -/
 def flush (st : DS) (thisPending : List Char) : Option DS :=
   if thisPending.isEmpty then some st else
@@ -662,7 +662,7 @@ def PS.setValue (ps : PS) (n : Int) : PS :=
   else { ps with param := { ps.param with width := n } }
 def PS.getValue (ps : PS) : Int := if ps.inPrec then ps.param.prec else ps.param.width
 
-/-- the flag characters (doprnt.c:524-547 `#`, `+`, space, `-`; :587-602 `0`).  `old` = before the
+/-- the flag characters (doprnt.c:525-545 `#`, `+`, space, `-`; :581-596 `0`).  `old` = before the
     repairs 802f527 / 214972f. -/
 def stepFlag (old : Bool) (ps : PS) (c : Char) : PS :=
   if c = '#' then { ps with param := { ps.param with showbase := .nonzero } }
@@ -678,7 +678,7 @@ def stepFlag (old : Bool) (ps : PS) (c : Char) : PS :=
      else ps.setValue 0)
   else ps
 
-/-- `case '*'` (doprnt.c:550-580) -/
+/-- `case '*'` (doprnt.c:552-579) -/
 def stepStar (old : Bool) (ps : PS) (n : Int) : PS :=
   if ¬ ps.inPrec then
     (if n < 0 then { ps with param := { ps.param with justify := .left, width := -n } }
@@ -687,11 +687,11 @@ def stepStar (old : Bool) (ps : PS) (n : Int) : PS :=
   else if n < 0 then { ps with seenPrec := false, param := { ps.param with prec := 6 } }
   else { ps with param := { ps.param with prec := n } }
 
-/-- `case '.'` (:548-552) -/
+/-- `case '.'` (:546-550) -/
 def stepDot (ps : PS) : PS :=
   { ps with seenPrec := true, inPrec := true, param := { ps.param with prec := -1 } }
 
-/-- label `integer:` (:268-281): default precision, then (214972f) the C99 rule that `-` or a precision
+/-- label `integer:` (:269-281): default precision, then (214972f) the C99 rule that `-` or a precision
     cancels the `0` flag. -/
 def integerParams (old : Bool) (ps : PS) (base : Int) : Params :=
   let p := { ps.param with base := base }
@@ -700,14 +700,14 @@ def integerParams (old : Bool) (ps : PS) (base : Int) : Params :=
     { p with fill := ' ', justify := if p.justify = .internal then .right else p.justify }
   else p
 
-/-- the value of an `N` argument: `xsize = (int) va_arg`, MPN_NORMALIZE, sign of xsize (:296-311) -/
+/-- the value of an `N` argument: `xsize = (int) va_arg`, MPN_NORMALIZE, sign of xsize (:300-314) -/
 def mpnValue (l : List Nat) (xsize : Int) : Option Int :=
   let n := (wrapSigned 32 xsize).natAbs
   if l.length < n then none else
   let v := val (l.take n)
   some (if wrapSigned 32 xsize ≥ 0 then (v : Int) else -(v : Int))
 
-/-- The conversion characters d i u o x X once the type is known (:282-352).  Returns the new state. -/
+/-- The conversion characters d i u o x X once the type is known (:282-356).  Returns the new state. -/
 def doInteger (old : Bool) (ps : PS) (tp : List Char) (base : Int) (st : DS) : Option DS :=
   let p := integerParams old ps base
   let gmp (st : DS) (str : List Char) : Option DS :=
@@ -739,7 +739,7 @@ def doInteger (old : Bool) (ps : PS) (tp : List Char) (base : Int) (st : DS) : O
     | some (_, as) => some { st with ap := as }
     | none => none
 
-/-- `case 'n'` (:452-509) -/
+/-- `case 'n'` (:454-511) -/
 def doN (ps : PS) (tp : List Char) (st : DS) : Option DS :=
   match flush st tp with
   | none => none
@@ -758,7 +758,7 @@ def doN (ps : PS) (tp : List Char) (st : DS) : Option DS :=
     | .mpqOut :: as => if t = 'Q' then some ({ st with ap := as, stores := st.stores ++ [Store.mpq r 1] }.sync) else none
     | _ => none
 
-/-- the float conversions a A e E f g G (doprnt.c:241-260, 357-395, 403-417); only the MPIR type F is
+/-- the float conversions a A e E f g G (doprnt.c:241-258, 358-396, 398-421); only the MPIR type F is
     modelled (double and long double arguments are not passed by the harness). -/
 def doFloat (old : Bool) (ps : PS) (tp : List Char) (c : Char) (st : DS) : Option DS :=
   let p := ps.param
@@ -795,7 +795,7 @@ def Step.ofOpt (m : Mode) : Option DS → Step
   | some st => .cont m st
   | none => .fail
 
-/-- the `switch (fchar)` of doprnt.c:239-620 for one character `c` of a `%` sequence; `st0` is the state
+/-- the `switch (fchar)` of doprnt.c:239-616 for one character `c` of a `%` sequence; `st0` is the state
     before `c` is appended to the pending text. -/
 def specStep (old : Bool) (c : Char) (ps : PS) (tp : List Char) (st0 : DS) : Step :=
   let st := { st0 with pending := c :: st0.pending }
